@@ -363,6 +363,7 @@ func init() {
 		}
 		return nil
 	})
+	reg("PreemptWithin", func(in *Interp, fr *frame, a []Value) Value { in.m.preemptWithin = strArg(a[0]); return nil })
 	reg("SchedOnlyAtYield", func(in *Interp, fr *frame, a []Value) Value { in.m.onlyYield = a[0].(Bool).C; return nil })
 	reg("Stop", func(in *Interp, fr *frame, a []Value) Value { panic(pathEnd{}) })
 	reg("Fault", func(in *Interp, fr *frame, a []Value) Value {
